@@ -318,7 +318,7 @@ theorem presDel_succ {n : Nat} (hq : PresChk n) : PresDel (n + 1) := by
   · simp at hr; exact hr ▸ h
   · next sess hf =>
     simp only at hr
-    exact foldE_ind LockInv _ (fun st c st' hst hc => hq st idx true _ st' hc hst) _ _ _
+    exact foldE_ind LockInv _ (fun st c st' hst hc => hq st idx _ _ st' hc hst) _ _ _
       (lockInv_removeSession hf h) hr
 
 theorem presChk_of {n : Nat} (hp : ∀ m, n = m + 1 → PresDel m) : PresChk n := by
